@@ -20,7 +20,7 @@ func C17(r *core.Run) {
 	r.Explanation = "The bucket-name decision, decided statically: (R17.1) create-bucket calls the validator on the very name it creates, obeys it, and every validator error is InvalidBucketName; " +
 		"(R17.2) the validator is a sequence of reject-guards ending in acceptance whose length guard accepts exactly 3..63 (computed by evaluating the guard structure over all lengths), with a whole-name pattern test, an IP-address reject and a per-label pattern test over strings.Split(name, \".\"); " +
 		"(R17.3) the fs backend lists only directory entries that pass the validator; " +
-		"(R17.4) the language accepted by (length set ∧ whole-name pattern ∧ every label matches the pattern) — extracted from the regular-expression constant and the guards — equals the language of the property statement, decided by a product construction of the two automata over a representative alphabet for all lengths up to 65 (the IP predicate is the same uninterpreted atom on both sides)."
+		"(R17.4) the language accepted by (length set ∧ whole-name pattern ∧ every label matches the pattern) — extracted from the regular-expression constant and the guards — equals the language of the property statement, decided by a product construction of the two automata over a representative alphabet for all lengths up to 65 (the IP predicate is the same uninterpreted atom on both sides). (R17.6) the router takes no naming decision of its own: on the way to createBucket the bucket name is only compared with the empty string."
 	r.NotDecided = "net.ParseIP semantics; per-backend agreement beyond the shared handler (bolt and memory do not re-validate); names longer than 65 characters are covered by the length guard, not by the automaton search"
 	ctx := oblig.NewCtx(r.P)
 	rule171(r)
@@ -28,6 +28,7 @@ func C17(r *core.Run) {
 	rule173(r)
 	rule174(r, lens)
 	rule175(r)
+	rule176(r)
 }
 
 func rule171(r *core.Run) {
@@ -799,5 +800,77 @@ func rule175(r *core.Run) {
 			})
 		}
 		r.Check(bad == "", "R17.5", key(fname(r, fn), "no private naming rule"), r.P.Pos(fn.Pos()), "the backend leaves the naming decision to the validator", "the backend applies a naming rule of its own ("+bad+"): the same name is accepted on one backend and refused on another")
+	}
+}
+
+// rule176 — the router does not decide which names are acceptable.
+func rule176(r *core.Run) {
+	r.Rule("R17.6", "in routeBase and routeBucket the bucket name taken from the path is only tested against the empty string and handed to route functions / handlers: no other comparison, pattern or string predicate on it can answer before the validator does (a refusal there would carry another code than InvalidBucketName)")
+	n := 0
+	for _, fnm := range []string{"gofakes3.(*GoFakeS3).routeBase", "gofakes3.(*GoFakeS3).routeBucket"} {
+		fn := mustFunc(r, fnm)
+		if fn == nil {
+			continue
+		}
+		// the bucket value: routeBucket's parameter; in routeBase the string handed to routeBucket
+		var bvals []ssa.Value
+		if p := paramNamed(fn, "bucket"); p != nil {
+			bvals = append(bvals, p)
+		}
+		core.Instrs(fn, func(in ssa.Instruction) {
+			if c, ok := in.(*ssa.Call); ok && strings.HasSuffix(r.P.CalleeName(c), ".routeBucket") && len(c.Call.Args) > 1 {
+				bvals = append(bvals, c.Call.Args[1])
+			}
+		})
+		if len(bvals) == 0 {
+			continue
+		}
+		isBucket := func(v ssa.Value) bool {
+			for _, b := range bvals {
+				if v == b {
+					return true
+				}
+			}
+			return false
+		}
+		f := fn
+		core.Instrs(f, func(in ssa.Instruction) {
+			switch x := in.(type) {
+			case *ssa.BinOp:
+				if !isBucket(x.X) && !isBucket(x.Y) {
+					return
+				}
+				n++
+				other := x.Y
+				if isBucket(x.Y) {
+					other = x.X
+				}
+				k, isK := core.ConstString(other)
+				okCmp := (x.Op == token.EQL || x.Op == token.NEQ) && isK && k == ""
+				r.Check(okCmp, "R17.6", key(fnm, "bucket only compared with the empty string", sprintf("#%d", n)), pos(r, x), "bucket ==/!= \"\"", "the router compares the bucket name with something other than the empty string: a naming decision outside the validator (refusals there do not answer InvalidBucketName)")
+			case *ssa.Call:
+				uses := false
+				for _, a := range x.Call.Args {
+					if isBucket(a) {
+						uses = true
+					}
+				}
+				if !uses {
+					return
+				}
+				cn := r.P.CalleeName(x)
+				if strings.HasPrefix(cn, "gofakes3.(*GoFakeS3).") || strings.HasPrefix(cn, "invoke:") && false {
+					return // handed to a route function / handler
+				}
+				if strings.Contains(cn, "Logger") || strings.HasPrefix(cn, "fmt.") || strings.HasPrefix(cn, "log.") {
+					return
+				}
+				n++
+				r.Violated("R17.6", key(fnm, "string predicate on the bucket name", cn), pos(r, x), "the router applies "+cn+" to the bucket name: a naming decision outside the validator (its refusals do not answer InvalidBucketName)")
+			}
+		})
+	}
+	if n < 2 {
+		r.Unresolved("R17.6: %d uses of the bucket name found in the router (expected at least 2)", n)
 	}
 }
